@@ -23,6 +23,7 @@ func NewLuaDecoder(prefs LuaPreferences) Decoder {
 }
 
 func (dec *luaDecoder) Init(reader io.Reader) error {
+	dec.finished = false
 	dec.reader = reader
 	return nil
 }
